@@ -145,7 +145,8 @@ CHECKS = {
              "table) must yield MissingFxRate naming the currency and the transaction's own month; generated rate folders "
              "(override, add month, mislabelled, non-positive, empty) are loaded at the library boundary and through "
              "--fx-folder and every lookup around an override is checked for locality; the whole bundled table is compared key by key. "
-             "A CLI-vs-library differential leg places the foreign amounts on any subset of line kinds (only trades, only dividends / accumulations / capital returns, only fees, one line).",
+             "A CLI-vs-library differential leg places the foreign amounts on any subset of line kinds (only trades, only dividends / accumulations / capital returns, only fees, one line). "
+             "An exact-division leg: an amount that is an exact multiple of the month's rate must convert to exactly that multiple (read at full precision); rate folders also carry non-positive values on repeated rows of a currency.",
         note="Where the bundled data lists one currency twice in a month with different rates (XCD 2015-04) either rate is "
              "accepted. Two folder files for one month are not generated (precedence not in the property). MCP get_fx_rate "
              "is compared with the table by C20.",
@@ -218,7 +219,8 @@ CHECKS = {
              "disposals by date then ticker, holdings by ticker, text-report transactions by date then ticker); report "
              "plain/json/pdf, parse and convert schwab are run 16 times each in fresh processes and compared byte for byte. "
              "Input lines arrive shuffled, chronological with arbitrary order inside a date, reverse-chronological or grouped by security; six fresh `cgt-tool mcp` servers are given the same tool calls (incl. the error answers that enumerate tickers) and must answer identically. "
-             "Half of the CLI process inputs are given as three files.",
+             "Half of the CLI process inputs are given as three files. "
+             "stderr (warnings) is compared across processes too, and each CLI command is also run with --output onto a fresh path and onto an existing longer file, which must end up byte-identical.",
         note="Only the converter's '# Converted:' timestamp is masked; PDF comparisons that straddle midnight are skipped.",
         ref="DESIGN.md §3 C16"),
     "C17": dict(
